@@ -6,6 +6,7 @@
 import GtModel.Proofs.DistinctInit
 import GtModel.Proofs.SortLemmas
 import GtModel.Proofs.SearchLemmas
+import GtModel.Proofs.SearchFinal
 
 namespace GtModel.C17
 open GtModel GtModel.Bounded
@@ -151,15 +152,81 @@ theorem search_terminates (sel : Sel) (s : SS) : ∃ s', search sel s = some s' 
   obtain ⟨s', e, l⟩ := searchLoop_spec sel (s.measure + 2) s (by omega)
   exact ⟨s', e, l⟩
 
-/- NOT PROVED (full statements; validated only by the correspondence stream and the monitor):
-   search_returns_min  : ValidSt σ fs → search sel (SS.init σ ⟨-∞, ∞⟩) = some s' → ¬ s'.bad → ¬ s'.unsupported →
-                         ∃ m nm, bestMatch s' = some m ∧ fs[m]? = some nm ∧ ∀ k nk, fs[k]? = some nk → nm ≤ nk   (σ ≠ [])
-   search_bounds_point : … → boundsOf s' = Range.point nm
-   search_bounds_sound : along every `tightenBounds` call from `SS.init σ ⟨-∞, ∞⟩`, `boundsOf` contains the minimum
-                         final cost and `(boundsOf s).contains (boundsOf s')`
-   Missing: the heap invariant (every untightened node's item is non-definitive and its stale key contains its
-   current range with equal lower bound or smaller; every tightened node's key is its item's final point; `_min` is
-   a node of minimal key; every item sits in at most one heap; every item removed is dominated by one that stays)
-   and its preservation by `updateBounds` / `lenOne` / the goal branch. -/
+/-- the default `initial_bounds` (`Range(-∞, ∞)`): all graphtage ever passes -/
+def defaultIb : Range := ⟨.negInf, .posInf⟩
+
+/-- **`search()` returns an item of minimum final cost** — for every collection of converging items (every
+tightening schedule) and EVERY heap oracle `sel` (the heap's choice among nodes of equal key; an inadmissible answer
+is replaced by the first minimal node), with the default `initial_bounds`.  `None` exactly for the empty collection.
+(`search_terminates` gives the existence of the final state `s'`.) -/
+theorem search_returns_min {σ : St} {fs : List Int} (hv : ValidSt σ fs) (sel : Sel) {s' : SS}
+    (h : search sel (SS.init σ defaultIb) = some s') :
+    ValidSt s'.σ fs ∧ (σ = [] → bestMatch s' = none) ∧
+    (σ ≠ [] → ∃ m nm, bestMatch s' = some m ∧ fs[m]? = some nm ∧ ∀ (k : Nat) (nk : Int), fs[k]? = some nk → nm ≤ nk) := by
+  obtain ⟨inv, hun, hu⟩ := search_result hv sel h
+  have hlen : s'.σ.length = σ.length := by rw [inv.1.valid.1, hv.1]
+  refine ⟨inv.1.valid, ?_, ?_⟩
+  · intro h0
+    exact bestMatch_none_of_nil inv (List.eq_nil_of_length_eq_zero (by rw [hlen, h0]; rfl)) hu
+  · intro hne
+    have hne' : s'.σ ≠ [] := by
+      intro h0; apply hne
+      exact List.eq_nil_of_length_eq_zero (by rw [← hlen, h0]; rfl)
+    obtain ⟨m, nm, _, hb, hn, ⟨n2, hn2, hmin⟩, _, _⟩ := final_facts inv hun hu hne'
+    rw [hn] at hn2; cases hn2
+    exact ⟨m.item, nm, hb, hn, hmin⟩
+
+example : ValidSt exσ [2, 1, 2] ∧ exσ ≠ [] := ⟨exσ_valid, by simp [exσ]⟩
+
+/-- **when `search()` ends, `bounds()` is the single value = the minimum final cost**, and `goal_test()` holds. -/
+theorem search_bounds_point {σ : St} {fs : List Int} (hv : ValidSt σ fs) (sel : Sel) {s' : SS}
+    (h : search sel (SS.init σ defaultIb) = some s') (hne : σ ≠ []) :
+    ∃ nm, (∃ m : Nat, fs[m]? = some nm) ∧ (∀ (k : Nat) (nk : Int), fs[k]? = some nk → nm ≤ nk) ∧
+      boundsOf s' = Range.point nm ∧ goalTest s' = true := by
+  obtain ⟨inv, hun, hu⟩ := search_result hv sel h
+  have hlen : s'.σ.length = σ.length := by rw [inv.1.valid.1, hv.1]
+  have hne' : s'.σ ≠ [] := by
+    intro h0; apply hne
+    exact List.eq_nil_of_length_eq_zero (by rw [← hlen, h0]; rfl)
+  obtain ⟨m, nm, _, _, hn, ⟨n2, hn2, hmin⟩, hb, hg⟩ := final_facts inv hun hu hne'
+  rw [hn] at hn2; cases hn2
+  exact ⟨nm, ⟨m.item, hn⟩, hmin, hb, hg⟩
+
+/-- **`bounds()` is sound at every step**: in every state `s` reached from the initial state by calls of
+`tighten_bounds()` (in particular in every state `search()` passes through),
+(1) `bounds()` contains the minimum final cost, and (2) the next call never widens it; hence (3) it lies inside
+every earlier value.  Every collection, every schedule, every heap oracle; default `initial_bounds`. -/
+theorem search_bounds_sound {σ : St} {fs : List Int} (hv : ValidSt σ fs) (sel : Sel) {s : SS}
+    (hr : SReach sel (SS.init σ defaultIb) s) :
+    (∀ (j : Nat) (n : Int), fs[j]? = some n → (∀ (k : Nat) (nk : Int), fs[k]? = some nk → n ≤ nk) →
+        (boundsOf s).contains (Range.point n) = true) ∧
+    (∀ (b : Bool) (s' : SS), tightenBounds sel s = some (b, s') → (boundsOf s).contains (boundsOf s') = true) ∧
+    (boundsOf (SS.init σ defaultIb)).contains (boundsOf s) = true := by
+  have inv0 : SInv fs (SS.init σ defaultIb) := SInv.init hv
+  have inv := hr.inv inv0
+  exact ⟨fun j n hj hmin => bounds_contains inv hj hmin, fun b s' ht => tightenBounds_mono sel inv ht, hr.mono inv0⟩
+
+/-- the states `search()` goes through are of that kind: its final state is reached by `tighten_bounds()` calls -/
+theorem search_reach (sel : Sel) (s s' : SS) (h : search sel s = some s') : SReach sel s s' :=
+  searchLoop_reach sel _ s s' h
+
+/-! The restriction to the default `initial_bounds` is necessary: with an explicit `initial_bounds` that contains the
+optimum the real code — and this model, see `corpus/bounded/ib_*.json` — loses optimal items and widens `bounds()`.
+The three witnesses, evaluated on the model (kernel `decide`): -/
+
+/-- item `[2,5] → [5,5]`, `initial_bounds = Range(0, 5)`: `search()` returns `None` -/
+example : (search (fun _ => none)
+    (SS.init [⟨⟨.fin 2, .fin 5⟩, [⟨.fin 5, .fin 5⟩], 0, 0⟩] ⟨.fin 0, .fin 5⟩)).map bestMatch = some none := by decide
+
+/-- items `[4,5] → [5,5]` and `[6,6]`, `initial_bounds = Range(1, 5)`: the item of cost 6 wins, `bounds() = [6,6]` -/
+example : (search (fun _ => none)
+    (SS.init [⟨⟨.fin 4, .fin 5⟩, [⟨.fin 5, .fin 5⟩], 0, 0⟩, ⟨⟨.fin 6, .fin 6⟩, [], 0, 0⟩] ⟨.fin 1, .fin 5⟩)).map
+      (fun s => (bestMatch s, boundsOf s)) = some (some 1, ⟨.fin 6, .fin 6⟩) := by decide
+
+/-- item `[1,6] → [1,5] → [1,4] → [1,3] → [1,1]`, `initial_bounds = Range(0, 2)`: the first call moves `bounds()`
+from `[0,2]` to `[1,3]` -/
+example : (tightenBounds (fun _ => none)
+    (SS.init [⟨⟨.fin 1, .fin 6⟩, [⟨.fin 1, .fin 5⟩, ⟨.fin 1, .fin 4⟩, ⟨.fin 1, .fin 3⟩, ⟨.fin 1, .fin 1⟩], 0, 0⟩]
+      ⟨.fin 0, .fin 2⟩)).map (fun p => boundsOf p.2) = some ⟨.fin 1, .fin 3⟩ := by decide
 
 end GtModel.C17
